@@ -13,7 +13,9 @@
 """
 from __future__ import annotations
 
+import hashlib
 import json
+import os
 import random
 from concurrent.futures import ThreadPoolExecutor
 
@@ -31,8 +33,36 @@ DEV_BREAKS = {"UnescapeBothQuotes": ("str", "StringRoundTrip"), "NumberIntFirst"
 
 
 # ------------------------------------------------------------------ TLC-enumerated universes
+def _spec_digest():
+    h = hashlib.sha1()
+    for m in META["modules"]:
+        for ext in (".tla", ".cfg"):
+            f = os.path.join(tlc.SPEC, m + ext)
+            if os.path.exists(f):
+                h.update(open(f, "rb").read())
+    return h.hexdigest()[:16]
+
+
+def _cached(key, compute):
+    """TLC answers do not depend on the code under test; with VT_TLC_CACHE=<dir> they are kept between
+    runs (used for the sensitivity runs against mutated copies of textX).  Keyed by the spec text."""
+    d = os.environ.get("VT_TLC_CACHE")
+    if not d:
+        return compute()
+    os.makedirs(d, exist_ok=True)
+    f = os.path.join(d, f"{PID}-{_spec_digest()}-{common.digest(key)}.json")
+    if os.path.exists(f):
+        with open(f) as fh:
+            return json.load(fh)
+    out = compute()
+    with open(f + ".tmp", "w") as fh:
+        json.dump(out, fh)
+    os.replace(f + ".tmp", f)
+    return out
+
+
 def _universe_runs(plan, dev=""):
-    """plan: [(kind, l1, l2, nshards)] -> {kind: (cases, [TLCResult])}; all shards in parallel."""
+    """plan: [(kind, l1, l2, nshards)] -> {kind: [cases, stats]}; all shards in parallel."""
     jobs = [(kind, l1, l2, n, s) for (kind, l1, l2, n) in plan for s in range(n)]
 
     def one(job):
@@ -40,29 +70,32 @@ def _universe_runs(plan, dev=""):
         return tlc.model_check("MC_BaseTypes", env=dict(VT_KIND=kind, VT_L1=l1, VT_L2=l2, VT_SHARD=s,
                                                         VT_NSHARDS=n, VT_DEV=dev), workers=1, timeout=3000)
 
-    with ThreadPoolExecutor(max_workers=tlc.NCPU) as ex:
-        rs = list(ex.map(one, jobs))
-    out = {}
-    for job, r in zip(jobs, rs):
-        tlc.require_ok(r, f"MC_BaseTypes kind={job[0]} shard={job[4]}/{job[3]}")
-        cases = r.results("CASE")
-        if len(cases) != r.distinct:
-            raise tlc.MachineryError(f"MC_BaseTypes {job}: {r.distinct} states but {len(cases)} printed cases")
-        out.setdefault(job[0], ([], []))
-        out[job[0]][0].extend(cases)
-        out[job[0]][1].append(r)
-    return out
+    def compute():
+        with ThreadPoolExecutor(max_workers=tlc.NCPU) as ex:
+            rs = list(ex.map(one, jobs))
+        out = {}
+        for job, r in zip(jobs, rs):
+            tlc.require_ok(r, f"MC_BaseTypes kind={job[0]} shard={job[4]}/{job[3]}")
+            cases = r.results("CASE")
+            if len(cases) != r.distinct:
+                raise tlc.MachineryError(f"MC_BaseTypes {job}: {r.distinct} states but {len(cases)} printed cases")
+            e = out.setdefault(job[0], [[], dict(distinct=0, generated=0, depth=0, wall_s=0.0, cmd="", shards=0)])
+            e[0].extend(cases)
+            st = e[1]
+            st.update(distinct=st["distinct"] + r.distinct, generated=st["generated"] + r.generated,
+                      depth=max(st["depth"], r.depth), wall_s=max(st["wall_s"], r.wall_s), cmd=r.cmd,
+                      shards=st["shards"] + 1)
+        return out
+
+    return _cached(["universe", plan, dev], compute)
 
 
 class _Agg:
     """several single-worker TLC runs of one universe reported as one (M) entry"""
 
-    def __init__(self, rs):
-        self.distinct = sum(r.distinct for r in rs)
-        self.generated = sum(r.generated for r in rs)
-        self.depth = max(r.depth for r in rs)
-        self.wall_s = max(r.wall_s for r in rs)
-        self.cmd = rs[0].cmd + f"   (x{len(rs)} shards, VT_SHARD=0..{len(rs) - 1})"
+    def __init__(self, st):
+        self.distinct, self.generated, self.depth, self.wall_s = st["distinct"], st["generated"], st["depth"], st["wall_s"]
+        self.cmd = st["cmd"] + f"   (x{st['shards']} shards, VT_SHARD=0..{st['shards'] - 1})"
         self.coverage = {}
 
 
@@ -205,7 +238,8 @@ def _random_pass(rep, cars, rng, n_str, maxlen, n_int, n_float):
     dev = ""
     scases = _string_cases(rng, n_str, maxlen)
     ncases = _number_cases(rng, n_int, n_float)
-    res, st = tlc.oracle("OracleBaseTypes", scases + [c for c, _, _ in ncases], env=dict(VT_DEV=dev))
+    allc = scases + [c for c, _, _ in ncases]
+    res, st = _cached(["random", allc], lambda: list(tlc.oracle("OracleBaseTypes", allc, env=dict(VT_DEV=dev))))
     rep.add_oracle("OracleBaseTypes", st)
     for c in scases:
         r = res[c["id"]]
@@ -256,8 +290,8 @@ def run(rep):
     plan = [("bool", 0, 0, 1), ("num", 0, 0, 4)]
     plan += [("str", 5, 0, 4), ("pair", 3, 2, 8)] if quick else [("str", 6, 0, 8), ("pair", 4, 2, 16)]
     uni = _universe_runs(plan)
-    for kind, (cases, rs) in uni.items():
-        rep.add_mc(f"MC_BaseTypes[{kind}]", _Agg(rs), THEOREMS)
+    for kind, (cases, st) in uni.items():
+        rep.add_mc(f"MC_BaseTypes[{kind}]", _Agg(st), THEOREMS)
         l1, l2 = next(p[1:3] for p in plan if p[0] == kind)
         rep.bounds[f"universe_{kind}"] = dict(cases=len(cases), L1=l1, L2=l2)
     cars = Carriers()
